@@ -38,7 +38,9 @@ NShapes == Len(ShapeX)
 ScaleSets == << <<R(1), RN(1, 2), RN(3, 4), R(1), RN(3, 2), R(2)>>,
                 <<RN(7, 5), RN(3, 5), RN(4, 5), R(1), RN(6, 5), RN(8, 5)>>,
                 <<RN(1, 3), RN(1, 2), RN(2, 3), R(1), RN(4, 3), RN(5, 3)>>,
-                <<R(3), R(1), R(2), R(3), R(5), R(6)>> >>
+                <<R(3), R(1), R(2), R(3), R(5), R(6)>>,
+                \* an excess: the observed curve crosses the level beyond the +2 sigma expected curve
+                <<R(12), RN(1, 2), RN(3, 4), R(1), RN(3, 2), R(2)>> >>
 NScales == Len(ScaleSets)
 
 LevelSet == {RN(1, 100), RN(1, 20), RN(1, 10), RN(1, 5), RN(2, 5)}
